@@ -109,7 +109,8 @@ func (plugin *StrategyBasedQueuePlugin) OnRequest(
 	request := queue.NewRequest(onRequest.ID, priority, plugin.clock)
 	canProceed, err := relevantQueue.Enqueue(
 		request,
-		time.Duration(remedyConfig.TTLSeconds)*time.Second,
+		// ttl_seconds may be fractional: do not drop the fraction
+		time.Duration(float64(remedyConfig.TTLSeconds)*float64(time.Second)),
 		remedyConfig.QueueSize,
 	)
 	if err != nil {
